@@ -455,6 +455,22 @@ impl Driver {
                     self.ended = true;
                 }
             }
+            // a timer that was armed during this poll but whose future has not been polled yet is not running for
+            // an implementation that starts its clock on first poll
+            // (judged only when the machine is actually waiting on timers: some pending timer has been polled)
+            let waiting_on_timers = g.gates.iter().any(|x| x.state == GateState::Pending && x.waker.is_some() && matches!(x.kind, GateKind::Timer(_)));
+            let unstarted: Vec<usize> = if !waiting_on_timers {
+                vec![]
+            } else {
+                g.gates
+                    .iter()
+                    .filter(|x| x.state == GateState::Pending && x.waker.is_none() && matches!(x.kind, GateKind::Timer(_)))
+                    .map(|x| x.id)
+                    .collect()
+            };
+            for id in unstarted {
+                g.push(Ev::TimerNotStarted { id });
+            }
             g.push(Ev::PollEnd);
             g.in_poll = false;
             drop(g);
@@ -643,6 +659,27 @@ impl Driver {
         self.sig.str("Ca");
         let req2 = self.send_with(handle, h, od_second);
         Some((req1, req2))
+    }
+
+    /// A request whose caller gives up right after sending it (future polled once, then dropped).
+    pub fn send_and_abandon(&mut self, h: usize, on_demand: bool) -> Option<usize> {
+        let mut handle = self.handles.get(h).and_then(|x| x.as_ref())?.clone();
+        let req = self.n_ctl;
+        self.n_ctl += 1;
+        let sent = lock(&self.w).push(Ev::CtlSend { req, handle: h, on_demand });
+        let opts = CheckOptions { source: if on_demand { InstallSource::OnDemand } else { InstallSource::ScheduledTask } };
+        let resolved = {
+            let wk = waker(self.ctl_wake.clone());
+            let mut cx = Context::from_waker(&wk);
+            let mut fut = Box::pin(handle.start_update_check(opts));
+            fut.as_mut().poll(&mut cx).is_ready()
+        };
+        let _ = sent;
+        if !resolved {
+            lock(&self.w).push(Ev::CtlAbandon { req });
+        }
+        self.sig.str("Cx");
+        Some(req)
     }
 
     pub fn clone_handle(&mut self, h: usize) -> Option<usize> {
